@@ -57,13 +57,23 @@ def decl_memory_flexible(As, sizes, ndims, tdims):
 def case_fit(case):
     from snaxc.ir.dart.scheduler import is_memory_flexible_enough, is_pure_output_stationary, scheduler_backtrack
 
-    fam, combo = case
+    fam, combo = case[:2]
+    by_index = case[2] if len(case) > 2 else None  # concrete bounds: schedules selected through scheduler(schedule_idx=i)
     name, tmaps, tb, smaps, n, els = fam
 
     def run_sched(B):
         s = mk_schedule(smaps, B)
         t = mk_template(tmaps, tb)
         out = []
+        if by_index is not None:
+            from snaxc.ir.dart.scheduler import scheduler
+
+            for i in range(8):
+                try:
+                    out.append(scheduler(t, s, extra_checks=checks_for(combo, els), schedule_idx=i))
+                except (IndexError, StopIteration):
+                    break
+            return t, s, out
         for r in scheduler_backtrack(t, s, extra_checks=checks_for(combo, els)):
             out.append(r)
             if len(out) >= MAX_YIELDS:
@@ -97,7 +107,7 @@ def case_fit(case):
         return out
 
     def fn():
-        B = sym_bounds(n)
+        B = sym_bounds(n) if by_index is None else [by_index] * n
         t, s, out = run_sched(B)
         for k, r in enumerate(out):
             for nm, c in judge(t, r, lambda a, b: sym.zint(a) >= sym.zint(b), lambda z: z):
@@ -105,7 +115,7 @@ def case_fit(case):
         eng().oblige("explored", True)
 
     def replay(f):
-        B = model_bounds(f["model"], n)
+        B = model_bounds(f["model"], n) if by_index is None else [by_index] * n
         t, s, out = run_sched(B)
         for k, r in enumerate(out):
             bad = [nm for nm, c in judge(t, r, lambda a, b: a >= b, lambda z: z3.is_true(z3.simplify(z))) if not c]
@@ -114,7 +124,7 @@ def case_fit(case):
         return False, f"B={B}: {len(out)} yields fit"
 
     return run_case(fn, replay, witness=True, signature=lambda f, v: "fit:" + f["name"],
-                    sample=dict(family=name, extra_checks=combo), key=str((name, combo)), max_paths=3000, timeout_ms=10000)
+                    sample=dict(family=name, extra_checks=combo, by_index=by_index), key=str((name, combo, by_index)), max_paths=3000, timeout_ms=10000)
 
 
 # ------------------------------------------------------------------ (ii) constraint predicates vs declarative definitions
@@ -229,6 +239,8 @@ def run(chk):
     combos = [(), ("pos",), ("mem",), ("pos", "mem")]
     if only in (None, "fit"):
         chk.add_results("yielded_schedules_fit", pmap(case_fit, [(f, c) for f in fams for c in combos]))
+        # the same through scheduler(..., schedule_idx=i) for every index it offers (concrete bounds)
+        chk.add_results("schedules_selected_by_index", pmap(case_fit, [(f, c, bnd) for f in fams for c in combos[1:] for bnd in ((16, 24) if quick else (8, 16, 24, 48))]))
     cases = []
     for rows in (1, 2):
         for tcols in (1, 2, 3):
